@@ -40,7 +40,7 @@ Proof.
 Qed.
 
 (* for every case (programs + schedule, as the harness runs them on the real database) outside
-   the three known classes, the model's run acknowledges only transactions whose writes are all in
+   the two known classes, the model's run acknowledges only transactions whose writes are all in
    frames that were in the log at the return *)
 Lemma case_outside_known_classes_l :
   forall c, known_class c = 0 ->
@@ -49,8 +49,7 @@ Lemma case_outside_known_classes_l :
 Proof.
   intros c Hk s. unfold known_class in Hk. fold s in Hk.
   destruct (inverted s) eqn:E1; [discriminate|]. destruct (borrowed s) eqn:E2; [discriminate|].
-  destruct (stolen (sh (base s))) eqn:E3; [discriminate|].
   destruct c as [progs steps fr res dr]. unfold s in *. cbn [final_and_obs] in *.
-  destruct (exec_obs38_is_run false (sched_of steps) (init38 (to_progs progs))) as [fine Hr].
-  rewrite Hr in *. apply coverage_outside_known_classes_l; [apply to_progs_wf | assumption | assumption].
+  destruct (exec_obs38_is_run true (sched_of steps) (init38 (to_progs progs))) as [fine Hr].
+  rewrite Hr in *. apply coverage_outside_known_class_l; [apply to_progs_wf | assumption].
 Qed.
